@@ -83,6 +83,7 @@ type Tally struct {
 	BySolver  map[string]int
 	SolverSec float64
 	Queries   int
+	Agreed    int // thorough: obligations on which a second solver gave the same definite answer
 }
 
 func (vc *VC) solveOne(o *Obligation, opts SolveOpts, tally *Tally) {
@@ -159,6 +160,38 @@ func (vc *VC) solveOne(o *Obligation, opts SolveOpts, tally *Tally) {
 			tally.mu.Lock()
 			tally.BySolver[r.solver]++
 			tally.mu.Unlock()
+			if opts.Second && !o.Cover {
+				// thorough: give the other solvers a few more seconds; a second identical answer is counted,
+				// a contradicting definite answer turns the obligation into a failure (solver disagreement)
+				deadline := time.After(6 * time.Second)
+				pending := len(solvers) - len(log)
+			wait:
+				for pending > 0 {
+					select {
+					case r2 := <-ch:
+						pending--
+						tally.mu.Lock()
+						tally.SolverSec += r2.secs
+						tally.Queries++
+						tally.mu.Unlock()
+						if r2.ans == want {
+							tally.mu.Lock()
+							tally.Agreed++
+							tally.mu.Unlock()
+							o.Solver += "+" + r2.solver
+							break wait
+						}
+						if r2.ans == "sat" || r2.ans == "unsat" {
+							o.Status = "failed"
+							o.Model = "SOLVER DISAGREEMENT: " + r.solver + " answered " + r.ans + ", " + r2.solver + " answered " + r2.ans + "\n" + r2.out
+							cancel()
+							return
+						}
+					case <-deadline:
+						break wait
+					}
+				}
+			}
 			cancel()
 			if !opts.KeepAll {
 				os.Remove(fname)
